@@ -755,7 +755,9 @@ class Interp:
     def simp(self, b):
         if isinstance(b, AFin):
             if not any(a in self.st.subst for a in b.atoms):
-                return b
+                # a finite function that happens to be affine in its atoms IS the affine form (one canonical spelling per bit)
+                r0 = fin_to_bit(b) if all(t in (0, 1, True, False) for t in b.table) else b
+                return self.st.lin.reduce(r0) if isinstance(r0, F) and r0.m else r0
             keep = [a for a in b.atoms if a not in self.st.subst]
             table = []
             for idx in range(1 << len(keep)):
